@@ -283,6 +283,10 @@ def r157(repo, ctx):
         return None
     # the loop that recomputes the midpoint  mid = (lo + hi) / 2  names the bracket ends
     loops = [l for l in ast.walk(f) if isinstance(l, (ast.While, ast.For)) and any(mid_binding(st) for st in ast.walk(l))]
+    if not loops and any(mid_binding(st) for st in ast.walk(f)) and any(isinstance(l, (ast.While, ast.For)) for l in ast.walk(f)):
+        ctx.violation('R15.7', SF, q, f, 'the midpoint is bound before the search loop but never recomputed inside it: the bracket ends move while the point that is tested stays where it was',
+                      construct='_findRcrit: bracket update')
+        return
     if len(loops) != 1 or len(pn) < 3:
         ctx.undecided('R15.7', SF, q, f, 'expected one loop that recomputes a midpoint mid = (lo + hi) / 2 and the parameters (RcritSphere, Rmax)')
         return
